@@ -11,9 +11,9 @@ import Ark.Model.Fp
   `ec/src/lib.rs` (`PrimeGroup::mul_bits_be`), `ec/src/models/{short_weierstrass,twisted_edwards}/mod.rs`
   (`mul_affine`, `mul_projective`), `ff/src/bits.rs` (`BitIteratorBE`).
 
-  Panics are explicit (`Ark.Outcome`).  `usize` arithmetic follows the *release* profile of the
-  harness (`overflow-checks = false`, i.e. wrapping), which matters in exactly one place
-  (`with_num_scalars_and_scalar_size` with `max_scalar_size = 0`, see there).
+  Panics are explicit (`Ark.Outcome`).  The model follows /repo after the two `fix:` commits
+  ea6f526 (`BatchMulPreprocessing` with `max_scalar_size = 0`) and ce8a6a5 (GLV `mul_projective`
+  overrides accept integers with more limbs than the scalar field).
 -/
 namespace Ark.ScalarMul
 open Ark
@@ -147,17 +147,22 @@ def glvMulAffine (c : GlvCfg) (endo : G → G) (p : G) (k : Nat) : G := glvMul c
 /-- how a curve configuration implements `SWCurveConfig::mul_projective` -/
 inductive MulProjImpl where
   | default                    -- trait default: `sw_double_and_add_projective`
-  | glv (c : GlvCfg)           -- bls12_381 g1 & co.: `from_sign_and_limbs(true, scalar)` then `glv_mul_projective`
+  | glv (c : GlvCfg)           -- bls12_381 g1 & co.: reduce the integer modulo `r`, then `glv_mul_projective`
 
-/-- `SWCurveConfig::mul_projective(base, scalar)`.
-    Override: `Fr::from_sign_and_limbs(true, scalar)` asserts `scalar.len() <= N` (panic otherwise)
-    and reduces the `N`-limb integer modulo `r`. -/
+/-- the scalar handed to `glv_mul_projective` by the override (after `fix:` ce8a6a5):
+    `if scalar.len() <= N { Fr::from_sign_and_limbs(true, scalar) }` — the limbs are copied into an `N`-limb
+    integer, which `Fp::new` reduces modulo `r` —
+    `else { Fr::from_le_bytes_mod_order(little-endian bytes of all limbs) }` — the whole integer modulo `r`. -/
+def glvOverrideScalar (c : GlvCfg) (scalar : List Nat) : Nat :=
+  if scalar.length ≤ c.nLimbs then value (scalar ++ List.replicate (c.nLimbs - scalar.length) 0) % c.r
+  else value scalar % c.r
+
+/-- `SWCurveConfig::mul_projective(base, scalar)`.  Since `fix:` ce8a6a5 no shipped implementation can panic;
+    the `Outcome` result type is kept for the callers in other models (always `.ok`). -/
 def swMulProjective (impl : MulProjImpl) (endo : G → G) (base : G) (scalar : List Nat) : Outcome G :=
   match impl with
   | .default => .ok (swDoubleAndAddProjective base scalar)
-  | .glv c =>
-    if scalar.length > c.nLimbs then .panic
-    else .ok (glvMulProjective c endo base (value scalar % c.r))
+  | .glv c => .ok (glvMulProjective c endo base (glvOverrideScalar c scalar))
 
 /-- `SWCurveConfig::mul_affine(base, scalar)` (no shipped configuration overrides it) -/
 def swMulAffine (base : G) (scalar : List Nat) : G := swDoubleAndAddAffine base scalar
@@ -272,14 +277,13 @@ def tableRows (inWindow lastInWindow outerc : Nat) : Nat → List G → List (Li
       :: tableRows inWindow lastInWindow outerc (outer + 1) gs
 
 /-- `BatchMulPreprocessing::with_num_scalars_and_scalar_size(base, num_scalars, max_scalar_size)`.
-    `window ≥ 3` always.  For `max_scalar_size = 0`: `outerc = 0` and `outerc - 1` wraps in the release
-    profile (a debug build panics there), the table is empty and every later `windowed_mul` panics on
-    `self.table[0][0]`. -/
+    `window ≥ 3` always.  `last_in_window = 1 << (max_scalar_size - outerc.saturating_sub(1) * window)`
+    (`Nat` subtraction saturates likewise); for `max_scalar_size = 0` there are no rows. -/
 def withNumScalarsAndScalarSize (base : G) (numScalars maxScalarSize : Nat) : BatchTable G :=
   let window := computeWindowSize numScalars
   let inWindow := 2 ^ window
   let outerc := ceilDiv maxScalarSize window
-  let lastInWindow := if outerc = 0 then 2 ^ window else 2 ^ (maxScalarSize - (outerc - 1) * window)
+  let lastInWindow := 2 ^ (maxScalarSize - (outerc - 1) * window)
   let gs := gOuters window outerc base
   { window := window, maxScalarSize := maxScalarSize,
     table := tableRows inWindow lastInWindow outerc 0 gs }
@@ -316,18 +320,12 @@ def windowedLoop (t : BatchTable G) (modulusSize : Nat) (bitsLE : List Bool) (ou
         | some e => windowedLoop t modulusSize bitsLE outerc n (res + e)
 
 /-- `BatchMulPreprocessing::windowed_mul(scalar)`; `scalar` = limbs of `into_bigint()`,
-    `modulusSize = MODULUS_BIT_SIZE` -/
+    `modulusSize = MODULUS_BIT_SIZE`; `let mut res = T::zero()` (an empty table only represents zero) -/
 def windowedMul (t : BatchTable G) (modulusSize : Nat) (scalar : List Nat) : Outcome G :=
-  if t.window = 0 then .panic            -- `div_ceil(0)`
+  if t.window = 0 then .panic            -- `div_ceil(0)`; unreachable for tables built by the constructors
   else
     let outerc := ceilDiv t.maxScalarSize t.window
-    let bitsLE := toBitsLE scalar
-    match t.table[0]? with
-    | none => .panic
-    | some row0 =>
-      match row0[0]? with
-      | none => .panic
-      | some z => windowedLoop t modulusSize bitsLE outerc outerc z
+    windowedLoop t modulusSize (toBitsLE scalar) outerc outerc 0
 
 def mapOutcome {α β} (f : α → Outcome β) : List α → Outcome (List β)
   | [] => .ok []
